@@ -13,10 +13,10 @@ K = 64
 PREFIX = {"retry": "RetryExecutor-", "poll": "PollExecutor-", "throttle": "ThrottleExecutor-", "timeout": "TimeoutExecutor-"}
 
 
-def _build(kind, me):
+def _build(kind, me, sleep=0.5):
     from more_executors import Executors
     if kind == "retry":
-        return Executors.with_retry(me, max_attempts=2, sleep=0.5)
+        return Executors.with_retry(me, max_attempts=2, sleep=sleep)
     if kind == "poll":
         def poll_fn(ds):
             for d in ds:
@@ -45,8 +45,18 @@ def scn_threads(ctx):
     ev = ctx.ev
     how = ("shutdown", "drop", "exit-hook")[ctx.choice(3, "how")]
     me = ManualExecutor(ev)
-    box = [_build(kind, me)]
+    box = [_build(kind, me, 50.0 if p.get("backoff") else 0.5)]
     did_work = bool(ctx.choice(2, "did-work"))
+    if p.get("backoff"):
+        # a retried job is waiting out its back-off; the user then drops the future as well
+        did_work = False
+        f = box[0].submit(lambda: 1)
+        sched.vsleep_until(sched.now() + 0.25)
+        for d in list(me.submitted):
+            finish(d, "error", exc=Boom("first attempt"))
+        sched.vsleep_until(sched.now() + 0.01)
+        d = None
+        del f, d
     if did_work:
         f = box[0].submit(lambda: 1)
         sched.vsleep_until(sched.now() + 0.25)
@@ -203,6 +213,8 @@ def plan(tier, seed):
     items = []
     for k in ("retry", "poll", "throttle", "timeout"):
         items.append(dict(scenario="threads", params=dict(kind=k), bounds=dict(P=2 if q else 3)))
+        if k == "retry":
+            items.append(dict(scenario="threads", params=dict(kind=k, backoff=True), bounds=dict(P=1 if q else 2)))
         items.append(dict(scenario="refs", params=dict(kind=k, n=2 if q else 3), bounds=dict(P=0)))
         items.append(dict(scenario="pending_outlives", params=dict(kind=k), bounds=dict(P=1 if q else 2)))
     return items
